@@ -8,6 +8,24 @@ var commonAssumptions = []string{
 }
 
 func init() {
+	register("C04", &propDef{
+		Run: runC04,
+		Info: propInfo{
+			Explanation: "Replay-detector rules decided by symbolic evaluation of every acyclic path of Check and of the accept closure (linear forms with store-to-load forwarding, no concrete inputs): every accepting path has established seq <= max and either 'newer' or (inside the window by the unsigned / folded distance, and the bit at exactly that distance clear); every refusing path refuses for one of the legitimate reasons; the wrapping detector folds the distance with exactly d > max/2 and d <= -max/2; Check writes nothing (purity); every path of accept calls SetBit exactly once, at the very distance Check tested (0 after moving the head), moves the head exactly when the number is newer, shifting by exactly the distance first; Bit/SetBit guard i < n and address word i/64; the truncation mask of the top word has width >= n%64 (affine check at both ends of [1,63]) and 64 for n%64 == 0. Not decided: the multi-word carry of Lsh, overflow of windowSize+seq near 2^64, the 'latest' result for a late sequence number 0 (value-level).",
+			RuleText:    "one obligation per rule per detector; a site is one path of Check / accept with its literal set, or a word access; non-trivial = matched at least one path",
+			Assumptions: commonAssumptions,
+		},
+		Thorough: []LoadCfg{{GOOS: "linux", GOARCH: "386"}, {GOOS: "linux", GOARCH: "arm"}},
+	})
+	register("C05", &propDef{
+		Run: runC05,
+		Info: propInfo{
+			Explanation: "Same engine as C04 (symbolic evaluation of all paths of Check/accept as linear forms): purity of Check (no field of the detector and no mask operation is written outside the accept closure); the acceptance predicate of every path equals the sliding-window rule in both directions (accepting paths carry all required literals, refusing paths carry a legitimate reason) including the exact fold boundaries of the wrapping detector and unsigned distance comparisons in the plain detector; accept reports true exactly on the head-moving path in the wrapping detector. Explicitly not decided (value-level, known deviations that stay in the tree): a late sequence number 0 reported as latest by the plain detector; refusal of fresh numbers within window-size of 2^64.",
+			RuleText:    "as C04",
+			Assumptions: commonAssumptions,
+		},
+		Thorough: []LoadCfg{{GOOS: "linux", GOARCH: "386"}, {GOOS: "linux", GOARCH: "arm"}},
+	})
 	register("C01", &propDef{
 		Run: runC01,
 		Info: propInfo{
